@@ -35,7 +35,7 @@ if [ -f $src/demo.sh ]; then bash $src/demo.sh $wt >/dev/null 2>&1; demo_mut=$?;
 (cd $wt && git checkout -q go.mod go.sum 2>/dev/null)
 dst=/verif/seeded/$pid-$m
 mkdir -p $dst
-if [ "$src" != "$dst" ]; then cp $src/patch.diff $dst/; cp $src/notes.md $dst/ 2>/dev/null; cp $src/demo* $dst/ 2>/dev/null; fi
+if [ "$src" != "$dst" ]; then cp $src/patch.diff $dst/; cp $src/patch.ported.diff $dst/ 2>/dev/null; cp $src/notes.md $dst/ 2>/dev/null; cp $src/demo* $dst/ 2>/dev/null; fi
 res=""
 cd /verif
 for p in $pid "$@"; do
